@@ -98,16 +98,20 @@ var opName = map[Op]string{
 }
 
 type T struct {
-	Op     Op
-	Sort   Sort
-	Args   []*T
-	Val    uint64 // constants: value (BV), 0/1 (Bool), IEEE bits (FP)
-	Name   string // variables
-	Hi, Lo int    // extract
-	ID     int
-	HasFP  bool
-	lo, hi uint64 // unsigned range for BV terms
+	Op       Op
+	Sort     Sort
+	Args     []*T
+	Val      uint64 // constants: value (BV), 0/1 (Bool), IEEE bits (FP)
+	Name     string // variables
+	Hi, Lo   int    // extract
+	ID       int
+	HasFP    bool
+	lo, hi   uint64 // unsigned range for BV terms
+	slo, shi int64  // signed range for BV terms
 }
+
+// SRange returns the signed interval known for a BV term.
+func (t *T) SRange() (int64, int64) { return t.slo, t.shi }
 
 func (t *T) IsConst() bool { return t.Op == OpConst }
 func (t *T) IsTrue() bool  { return t.Op == OpConst && t.Sort.K == Bool && t.Val == 1 }
@@ -164,6 +168,7 @@ func (c *Ctx) mk(t *T) *T {
 	}
 	if t.Sort.K == BV {
 		t.lo, t.hi = c.rng(t)
+		t.slo, t.shi = c.srng(t)
 	}
 	c.tab[k] = t
 	return t
@@ -235,6 +240,8 @@ func (c *Ctx) rng(t *T) (uint64, uint64) {
 			if s < 64 && bits.Len64(t.Args[0].hi)+int(s) <= t.Sort.W {
 				return t.Args[0].lo << s, t.Args[0].hi << s
 			}
+		} else if s := t.Args[1].hi; s < 64 && bits.Len64(t.Args[0].hi)+int(s) <= t.Sort.W {
+			return 0, t.Args[0].hi << s
 		}
 	case OpURem:
 		if t.Args[1].lo > 0 {
@@ -280,6 +287,84 @@ func (c *Ctx) rng(t *T) (uint64, uint64) {
 		}
 	}
 	return 0, m
+}
+
+func sfull(w int) (int64, int64) {
+	if w >= 64 {
+		return math.MinInt64, math.MaxInt64
+	}
+	return -(int64(1) << uint(w-1)), (int64(1) << uint(w-1)) - 1
+}
+
+func (c *Ctx) srng(t *T) (int64, int64) {
+	w := t.Sort.W
+	flo, fhi := sfull(w)
+	fits := func(lo, hi int64) (int64, int64) {
+		if lo >= flo && hi <= fhi && lo <= hi {
+			return lo, hi
+		}
+		return flo, fhi
+	}
+	// non-negative in both interpretations
+	if w <= 64 && t.hi <= uint64(fhi) {
+		return int64(t.lo), int64(t.hi)
+	}
+	small := func(x *T) bool { return x.slo > -(1<<61) && x.shi < (1<<61) }
+	switch t.Op {
+	case OpConst:
+		v := sext(t.Val, w)
+		return v, v
+	case OpSExt:
+		return t.Args[0].slo, t.Args[0].shi
+	case OpAdd:
+		a, b := t.Args[0], t.Args[1]
+		if small(a) && small(b) {
+			return fits(a.slo+b.slo, a.shi+b.shi)
+		}
+	case OpSub:
+		a, b := t.Args[0], t.Args[1]
+		if small(a) && small(b) {
+			return fits(a.slo-b.shi, a.shi-b.slo)
+		}
+	case OpNeg:
+		a := t.Args[0]
+		if small(a) {
+			return fits(-a.shi, -a.slo)
+		}
+	case OpIte:
+		l, h := t.Args[1].slo, t.Args[1].shi
+		if t.Args[2].slo < l {
+			l = t.Args[2].slo
+		}
+		if t.Args[2].shi > h {
+			h = t.Args[2].shi
+		}
+		return l, h
+	case OpSDiv:
+		a, b := t.Args[0], t.Args[1]
+		if b.IsConst() && sext(b.Val, w) > 0 && small(a) {
+			d := sext(b.Val, w)
+			return fits(a.slo/d, a.shi/d)
+		}
+	case OpAShr:
+		a, b := t.Args[0], t.Args[1]
+		if b.IsConst() && b.Val < 64 {
+			return a.slo >> b.Val, a.shi >> b.Val
+		}
+	case OpMul:
+		a, b := t.Args[0], t.Args[1]
+		if b.IsConst() && small(a) {
+			k := sext(b.Val, w)
+			if k > -(1<<20) && k < (1<<20) && a.slo > -(1<<40) && a.shi < (1<<40) {
+				x, y := a.slo*k, a.shi*k
+				if x > y {
+					x, y = y, x
+				}
+				return fits(x, y)
+			}
+		}
+	}
+	return flo, fhi
 }
 
 func (c *Ctx) bin(op Op, a, b *T) *T {
@@ -906,11 +991,34 @@ func (c *Ctx) FFromInt(a *T, fw int, signed bool) *T {
 		}
 		return c.F64(f)
 	}
-	op := OpFFromUInt
-	if signed {
-		op = OpFFromSInt
+	// narrow the integer first: converting a 64-bit vector is expensive for the solver
+	narrowU := func(hi uint64) *T {
+		k := bits.Len64(hi)
+		if k < 1 {
+			k = 1
+		}
+		x := a
+		if k < a.Sort.W {
+			x = c.Extract(a, k-1, 0)
+		}
+		return c.mk(&T{Op: OpFFromUInt, Sort: Sort{FP, fw}, Args: []*T{x}})
 	}
-	return c.mk(&T{Op: op, Sort: Sort{FP, fw}, Args: []*T{a}})
+	if !signed {
+		return narrowU(a.hi)
+	}
+	if a.slo >= 0 {
+		return narrowU(uint64(a.shi))
+	}
+	m := a.shi
+	if -(a.slo + 1) > m {
+		m = -(a.slo + 1)
+	}
+	k := bits.Len64(uint64(m)) + 1
+	x := a
+	if k < a.Sort.W {
+		x = c.Extract(a, k-1, 0)
+	}
+	return c.mk(&T{Op: OpFFromSInt, Sort: Sort{FP, fw}, Args: []*T{x}})
 }
 
 func evalFToSInt(fw, w int, v uint64) uint64 {
